@@ -2,12 +2,60 @@
 // /repo's working tree, printed as `name bits count v0 v1 ...` lines.
 use raptorq::verif as rq;
 
+use std::fmt::Write as _;
+
+thread_local! { static OUT: std::cell::RefCell<String> = std::cell::RefCell::new(String::new()); }
+
 fn line(name: &str, bits: u32, vals: impl Iterator<Item = u64>) {
     let v: Vec<String> = vals.map(|x| x.to_string()).collect();
-    println!("{name} {bits} {} {}", v.len(), v.join(" "));
+    OUT.with(|o| writeln!(o.borrow_mut(), "{name} {bits} {} {}", v.len(), v.join(" ")).unwrap());
 }
 
 pub fn dump() {
+    print!("{}", dump_string());
+}
+
+// The frozen copy of the pinned crate's tables (assumed to be RFC 6330's).
+pub const RFC_TABLES: &str = include_str!("../rfc_tables.txt");
+
+// Engine `tables`: every live table entry against the frozen RFC copy, with a concrete API-level
+// consequence for the first deviations.
+pub fn compare(rec: &mut crate::util::Recorder) {
+    let live = dump_string();
+    let parse = |s: &str| -> Vec<(String, Vec<u64>)> {
+        s.lines().map(|l| { let mut p = l.split(' '); let name = p.next().unwrap().to_string(); p.next(); p.next(); (name, p.map(|x| x.parse().unwrap()).collect()) }).collect()
+    };
+    let (a, b) = (parse(&live), parse(RFC_TABLES));
+    for ((name, va), (nb, vb)) in a.iter().zip(b.iter()) {
+        assert_eq!(name, nb);
+        if va.len() != vb.len() {
+            rec.impl_violation(format!("table {name} has {} entries, RFC has {}", va.len(), vb.len()));
+        }
+        let mut shown = 0;
+        for (i, (x, y)) in va.iter().zip(vb.iter()).enumerate() {
+            if x != y && shown < 3 {
+                shown += 1;
+                let consequence = match name.as_str() {
+                    "degP" => format!("deg({}, 1000) = {} but RFC 5.3.5.2 gives {}", x.min(y), rq::deg(*x.min(y) as u32, 1000), if y < x { i + 1 } else { i }),
+                    "v0P" => format!("rand({i}, 0, 4294967295) = {}", rq::rand(i as u32, 0u32, u32::MAX)),
+                    "t2K" | "t2J" | "t2S" | "t2H" | "t2W" | "p1V" | "p1K" => format!("systematic constants of K'={} deviate", b[4].1.get(i).copied().unwrap_or(0)),
+                    _ => String::new(),
+                };
+                rec.impl_violation(format!("table {name}[{i}] = {x}, RFC 6330 has {y}; {consequence}"));
+            }
+            rec.count("entries_compared");
+        }
+        rec.put(&format!("tablen {name}"), &va.len().to_string());
+    }
+}
+
+pub fn dump_string() -> String {
+    OUT.with(|o| o.borrow_mut().clear());
+    dump_inner();
+    OUT.with(|o| o.borrow().clone())
+}
+
+fn dump_inner() {
     let vt = rq::rand_tables();
     for (i, t) in vt.iter().enumerate() {
         line(&format!("v{i}P"), 32, t.iter().map(|x| *x as u64));
